@@ -58,6 +58,9 @@ def generate(seed, tier, index):
         el = rng.choice(["E1", "E2"])
         waits.append({"ek": ek, "ck": ck, "timeout": T, "poll": poll, "start": start, "el": el,
                       "filter_el": ek == "value" and rng.random() < 0.7, "filter_dev": rng.random() < 0.7})
+        # an element-filtered wait without an event-type filter: the element filter alone must keep out the events that
+        # have no element (state changes and re-definitions of the same property)
+        waits[-1]["untyped"] = waits[-1]["filter_el"] and rng.random() < 0.4
     horizon = 6.0
     nev = rng.randint(0, 14 if thorough else 8)
     evs = []
@@ -212,7 +215,10 @@ def execute(scen):
             kw = {"vector": "V", "timeout": w["timeout"]}
             if w["filter_dev"]:
                 kw["device"] = "D"
-            kw["event_type"] = CE.ValueUpdate if w["ek"] == "value" else CE.StateUpdate
+            if not w.get("untyped"):
+                kw["event_type"] = CE.ValueUpdate if w["ek"] == "value" else CE.StateUpdate
+            else:
+                probes["element_filtered_wait_without_type_filter"] = 1
             if w["ek"] == "value" and w["filter_el"]:
                 kw["element"] = w["el"]
             if w["ck"] == "expect":
